@@ -170,6 +170,7 @@ func (b *Board) MakeMove(m move.Move) Reverse {
 	b.hashes = append(b.hashes, hash)
 
 	// b.consistencyCheck()
+	b.verifOp(VerifMake, m)
 
 	return r
 }
@@ -219,6 +220,7 @@ func (b *Board) UndoMove(m move.Move, r Reverse) {
 	b.fullMoves -= int(b.STM)
 
 	// b.consistencyCheck()
+	b.verifOp(VerifUndo, m)
 }
 
 func (b *Board) NewCastles(m move.Move) Castles {
@@ -288,6 +290,7 @@ func (b *Board) MakeNullMove() Reverse {
 
 	b.hashes = append(b.hashes, hash)
 	// b.consistencyCheck()
+	b.verifOp(VerifNullMake, 0)
 	return r
 }
 
@@ -298,6 +301,7 @@ func (b *Board) UndoNullMove(r Reverse) {
 	b.EnPassant = r.enPassantChange()
 	b.hashes = b.hashes[:len(b.hashes)-1]
 	// b.consistencyCheck()
+	b.verifOp(VerifNullUndo, 0)
 }
 
 // func (b *Board) consistencyCheck() {
